@@ -26,7 +26,7 @@ type c16Case struct {
 
 func genC16(t *rapid.T) c16Case {
 	c := c16Case{OnlyAt: -1}
-	c.Shape = gen.DrawShape(t, gen.ShapeOpts{})
+	c.Shape = gen.DrawShape(t, gen.ShapeOpts{AllowReplaceQuotes: true})
 	c.Shape.BOM = rapid.IntRange(0, 5).Draw(t, "bom") == 0
 	c.Recs = gen.DrawRecs(t, c.Shape, "r", 0, 5, gen.ValueOpts{})
 	switch rapid.IntRange(0, 2).Draw(t, "sched") {
